@@ -1043,7 +1043,7 @@ var Rules = []report.Rule{
 	{ID: "G1", Floor: 6, Props: []string{"C17"}, Text: "every range over a map / typeutil.Map.Keys() only fills sets, emits diagnostics, or builds slices that are sorted before any other use"},
 	{ID: "G2", Floor: 4, Props: []string{"C17"}, Text: "no clock/environment/random/introspection source is consulted except the random magic token, which is read only by the comment printer (source-map mode) and the comment replacer; no go/select in the generator"},
 	{ID: "G3", Floor: 2, Props: []string{"C17"}, Text: "package-level variables are never written after initialisation; Process builds a fresh compiler and generator per file"},
-	{ID: "G4", Floor: 7, Props: []string{"C16", "C17"}, Text: "file-system mutations are exactly os.WriteFile(g.outputPath) plus the debug temp dump on the parse-failure path; outputPath flows from Process's parameter, which main derives from -file OUT or genFilename"},
+	{ID: "G4", Floor: 7, Props: []string{"C16", "C17"}, Text: "file-system mutations are exactly os.WriteFile(g.outputPath) plus the debug temp dump on the parse-failure path; outputPath flows from Process's parameter, which main derives from -file OUT or genFilename; the -file table holds only the OUT values the user gave, and the default output name is genFilename of the path of the very file handed to Process"},
 	{ID: "G5", Floor: 3, Props: []string{"C13", "C14"}, Text: "generation is dominated by CompileFile() == nil, which returns all recorded diagnostics"},
 	{ID: "G6", Floor: 3, Props: []string{"C13"}, Text: "every output write is dominated by successful re-parse and format of the generated text"},
 	{ID: "G7", Floor: 1, Props: []string{"C13"}, Text: "go/constant accessors with panicking preconditions are dominated by a nil/kind test of the same value"},
@@ -1062,7 +1062,7 @@ var Rules = []report.Rule{
 	{ID: "G21", Floor: 8, Props: []string{"C13"}, Text: "every index into a slice/tuple whose length is the arity of a user function is in range for every length the dominating tests admit (evaluated per hypothesis len == 0..6)"},
 	{ID: "G23", Floor: 1, Props: []string{"C13"}, Text: "(*types.Package).Path/Name on Obj().Pkg() (nil for universe objects such as error) is dominated by a nil test"},
 	{ID: "G24", Floor: 3, Props: []string{"C13", "C14"}, Text: "results of the compiler's may-return-nil constructors are nil-tested before any field access, also after being stored in a slice that is ranged over later"},
-	{ID: "G18", Floor: 3, Props: []string{"C02", "C13", "C14"}, Text: "no Go map keyed by types.Type; type/predicate ids are memoised through typeutil.Map"},
+	{ID: "G18", Floor: 3, Props: []string{"C02", "C13", "C14"}, Text: "no Go map keyed by types.Type and no ==/!= between two go/types values (identical types are not pointer-equal); type/predicate ids are memoised through typeutil.Map"},
 }
 
 // Run executes all G-rules.
